@@ -36,8 +36,10 @@ LoadOK == /\ (NameIsKindOK \/ iname = "kind")
           /\ (UniSourcesOK \/ ~(dim = 1 /\ SrcResolved >= 1))
 \* origins: "fit" (one averaging iteration after the memory-less phase), "fit_mem2" / "fit_mem3" (two / three averaging
 \* iterations: the parameters are then averages, not the last draws), "hand" (hand-written file), "edited" (a fitted model
-\* object whose parameters are replaced by hand-written values through load_parameters before saving)
-FromFit == origin \in {"fit", "fit_mem2", "fit_mem3"}
+\* object whose parameters are replaced by hand-written values through load_parameters before saving), "refit" (a fitted
+\* object that is calibrated a second time); for "edited" and "refit" the object already answered trajectory requests and
+\* was saved to / loaded from the very path used afterwards
+FromFit == origin \in {"fit", "fit_mem2", "fit_mem3", "refit"}
 ResaveSame == ScalarShapeOK \/ ~(ScalarNoise /\ FromFit)
 Expected == [pop_at_mode |-> TRUE, save_ok |-> TRUE, load_ok |-> LoadOK, src_resolved |-> SrcResolved,
              same_params |-> LoadOK, same_hyper |-> LoadOK, same_traj |-> LoadOK, resave_same |-> (LoadOK /\ ResaveSame)]
